@@ -79,6 +79,7 @@ type Exec struct {
 	nextCell int
 	nextH    int
 	lgN      int
+	probe    *probeInfo
 	gWritten map[*ssa.Global]bool
 	warnings map[string]bool
 	unverified string
@@ -986,6 +987,12 @@ func (x *Exec) runDefers(st *State, fr *Frame, panicking bool) []Outcome {
 
 // transfer moves control along the edge from -> to, handling loop headers.
 func (x *Exec) transfer(st *State, fr *Frame, from, to *ssa.BasicBlock) []Outcome {
+	if x.probe != nil && x.probe.sameFrame(fr) && to != x.probe.header && !x.probe.body[to] {
+		if os.Getenv("GOVC_DEBUG") != "" {
+			fmt.Fprintf(os.Stderr, "probe: leaving loop %d -> %d\n", from.Index, to.Index)
+		}
+		return nil // probe of a loop body: paths that leave the loop are not of interest
+	}
 	li := x.loops(fr.fn)
 	if _, isHeader := li.body[to]; isHeader {
 		return x.enterLoop(st, fr, from, to, li)
